@@ -619,12 +619,17 @@ func (g *G) Variant(doc string) string {
 		return g.Doc()
 	}
 	v = clone(v)
+	// heavy: most members differ (many differences at one level, nested ones among them)
+	dice := 8
+	if g.R.P(300) {
+		dice = 3
+	}
 	var mut func(v *jr.Value, depth int)
 	mut = func(v *jr.Value, depth int) {
 		switch v.K {
 		case jr.Obj:
 			for i := 0; i < len(v.Keys); i++ {
-				switch g.R.Intn(8) {
+				switch g.R.Intn(dice) {
 				case 0:
 					v.Keys = append(v.Keys[:i], v.Keys[i+1:]...)
 					v.Vals = append(v.Vals[:i], v.Vals[i+1:]...)
